@@ -11,7 +11,7 @@ Nothing is ever applied to /repo itself.
 import json, os, shutil, subprocess, sys, time
 
 ROOT = os.path.dirname(os.path.dirname(os.path.abspath(__file__)))
-SEEDED = os.path.join(ROOT, 'seeded')
+SEEDED = os.environ.get('VERIF_SEEDED', os.path.join(ROOT, 'seeded'))
 GOENV = dict(os.environ, GOFLAGS='-mod=mod', GOPROXY='off', GOSUMDB='off', GOTOOLCHAIN='local')
 
 
